@@ -555,7 +555,9 @@ def r143(ctx, rep, f, ev, cg, reach):
     rep.check(ok, "R14.3", "R14.3|trigger|per-rdh", how, W, "trigger type of each analysed RDH is not counted exactly once: TriggerType sends %s, collect_stats calls %s" % (
         [(o["args"][1][-80:], len(o["guard"])) for o in tt], [(o["args"][1][-60:], len(o["guard"])) for o in cs_]))
     hs = [o for o in sends if o["args"][1].startswith("StatType::HBFsSeen(")]
-    ok = len(hs) == 1 and hb and len(hs[0]["guard"]) == 1 and len(hb[0]["guard"]) > 1 and "phi(0x0|" in hs[0]["args"][1]
+    # one send per batch (outside the per-RDH loop) of a counter that starts at 0 in this batch
+    ok = len(hs) == 1 and hb and len(hs[0]["guard"]) < len(hb[0]["guard"]) and tuple(hb[0]["guard"][:len(hs[0]["guard"])]) == tuple(hs[0]["guard"]) \
+        and ("phi(0x0|" in hs[0]["args"][1] or "mut(0x0;" in hs[0]["args"][1])
     rep.check(ok, "R14.3", "R14.3|hbf|per-batch", "one HBFsSeen(count of this batch) per received batch", W, "HBFsSeen sends: %s" % [(o["args"][1][:80], len(o["guard"])) for o in hs])
     cs = [o for o in recs if "call" in o and o["call"].endswith("collect_system_specific_stats")]
     rep.check(len(cs) == 1 and hb and tuple(cs[0]["guard"]) == tuple(hb[0]["guard"]), "R14.3", "R14.3|system-specific|per-rdh", "system specific statistics are collected for every analysed RDH", W)
@@ -574,9 +576,9 @@ def r143(ctx, rep, f, ev, cg, reach):
                 why.append(show_origin(o)[:80])
         rep.check(bool(fresh) and all(fresh), "R14.3", "R14.3|trigger|fresh-per-batch", "the batch-local TriggerStats is created inside the receive loop (one fresh accumulator per batch)", W,
                   "the TriggerStats that is sent once per batch is not initialised inside the receive loop (%s): every batch re-sends the counts of all earlier batches" % why)
-    src = [show_origin(b.origin(t["args"][0])) for bb, t, cal, c in b.calls() if cal and cal.endswith("IntoIterator>::into_iter")]
+    src = [show_origin(b.origin(t["args"][0])) for bb, t, cal, c in b.calls() if cal and cal.endswith("::into_iter")]
     chain = [cal.split("::")[-1] for bb, t, cal, c in b.calls() if cal and ("iter::" in cal or "slice::" in cal) and "Iterator>::next" not in cal]
-    rep.check(any("rdh_slice" in s and "iter(" in s for s in src) and not any(x in chain for x in ("skip", "take", "step_by", "filter", "rev")), "R14.3", "R14.3|all-rdhs",
+    rep.check(any("rdh_slice" in s for s in src) and not any(x in chain for x in ("skip", "take", "step_by", "filter", "rev")), "R14.3", "R14.3|all-rdhs",
               "the statistics loop visits every RDH of the batch (rdh_slice().iter())", W, "loop source %s adaptors %s" % (src, chain))
     ev.watch = lambda c: "flume::Sender" in c
     # evaluated on the wire image of the RDH: fee_id is bytes 2..3, so layer = R[30:28] and stave = R[21:16] however the masks and shifts are written
